@@ -39,6 +39,16 @@ RULES = [
      ("theorem:lineAfter_total", "inside `if let Some(rest) = line_string.get(match_col..)`: match_col is a boundary <= len")),
     (r"preview/diff\.rs", r"^render_diff$", r"regex::replace_range", r".",
      ("theorem:diffStep_total", "behind `after_line.get(col..).is_some_and(.. starts_with(&hunk.content))`")),
+    # ---- sites added by other fix commits after the first C16 pass (reviewed at the frozen HEAD 451dd24) -----------------
+    (r"lock\.rs", r"^release_held_locks$", r"regex::drain", r".", ("infallible", "`held.drain(..)` over the full range cannot be out of bounds")),
+    (r"compound_matcher\.rs", r"^untouched_text_survives_rejoin$", r"indexing_slicing", r"bytes\[cursor\]",
+     ("infallible", "`cursor < bytes.len() &&` precedes in the same condition")),
+    (r"compound_matcher\.rs", r"^untouched_text_survives_rejoin$", r"string_slice", r"identifier_without_prefix\[gap_start\.\.cursor\]",
+     ("unclassified", "LATENT: panics in-process when a token spans a non-ASCII character inside a word "
+                      "(find_compound_variants(\"fo\u00e9x_foo_bar\", \"foo_bar\", \"baz_qux\"): gap_start = 3 lies inside the two-byte character). "
+                      "The only caller (compound_scanner) passes identifiers matched by `[a-zA-Z_][a-zA-Z0-9_\\-\\.]*` or Title words joined by `\\s+`; "
+                      "30000 generated identifiers of that shape and the CLI stream do not reach it. Not proved unreachable; "
+                      "`.get(gap_start..cursor)` would remove the question. Watched by the in-process op panic_compound.")),
     # ---- shapes before the fixes (kept so that a reverted fix is recognised, not taken for new code) ---------------
     (r"scanner\.rs", r"^generate_hunks$", r"string_slice", r"line_string\[(match_col|\.\.match_col)",
      ("known-finding:lossy_column", "raw-line byte column applied to the lossily decoded line; safe under the hypotheses of lineAfter_no_panic_valid_utf8")),
